@@ -2,6 +2,8 @@ INIT Init
 NEXT Next
 CONSTANTS OFFBYONE = FALSE
   NULLZERO = FALSE
+  KEYGEN0 = FALSE
+  DECRYPTMEMBERS = FALSE
   Objs = {1, 2, 3}
   MaxRevs = 2
   MaxPieces = 3
